@@ -70,12 +70,19 @@ class TupleV:
         return "TupleV%r" % (self.f,)
 
 
-class StructV:
-    __slots__ = ("name", "f")
+_OID = [0]
 
-    def __init__(self, name, f):
+
+class StructV:
+    __slots__ = ("name", "f", "path")
+
+    def __init__(self, name, f, path=None):
         self.name = name
         self.f = dict(f) if isinstance(f, dict) else {i: v for i, v in enumerate(f)}
+        if path is None:
+            _OID[0] += 1
+            path = "#%d" % _OID[0]
+        self.path = path   # object identity for stores through references
 
     def __repr__(self):
         return "%s%r" % (self.name, self.f)
@@ -95,11 +102,12 @@ class EnumV:
 
 
 class RefV:
-    __slots__ = ("v", "slot")
+    __slots__ = ("v", "slot", "loc")
 
-    def __init__(self, v, slot=None):
+    def __init__(self, v, slot=None, loc=None):
         self.v = v
         self.slot = slot   # name of the caller's local this reference was taken from (for &mut write-back)
+        self.loc = loc     # (object id, field index) when the reference points into an object's field (heap store)
 
     def __repr__(self):
         return "&%r" % (self.v,)
@@ -197,3 +205,33 @@ class ItemV:
 
     def __repr__(self):
         return "%s%r" % (self.kind, self.f)
+
+
+class FnPtrV:
+    """a reified function pointer"""
+    __slots__ = ("name",)
+
+    def __init__(self, name):
+        self.name = name
+
+    def __repr__(self):
+        return "fn(%s)" % self.name
+
+
+class VecV:
+    """Vec<T> / slice with a concrete length: python list of element values"""
+    __slots__ = ("items",)
+
+    def __init__(self, items):
+        self.items = list(items)
+
+    def __repr__(self):
+        return "Vec%r" % (self.items,)
+
+
+class IterV:
+    """slice iterator (optionally enumerated)"""
+    __slots__ = ("items", "idx", "enum")
+
+    def __init__(self, items, idx=0, enum=False):
+        self.items, self.idx, self.enum = items, idx, enum
